@@ -139,7 +139,7 @@ def run_config(chk, config):
     hid = {"n": 0, "bad": []}
 
     def on_loop(frame, head, H, res, havoc, lid):
-        if frame.key != a.avp_greedy["key"]:
+        if not in_ctx(frame, a.avp_greedy) or not record_loop(res, H.ntrace):
             return
         for b in res["back"]:
             evs = b.events()
